@@ -18,7 +18,8 @@ DECIDED = ["R12a writer/reader tag, placement (inline / out-of-line / mixed) and
            "R12b DbValueIndex layout constants (TABLE)",
            "R12c f64 path is a bit move (no arithmetic)",
            "R23b cursor discipline of the file-only variant (shared with C23)",
-           "R12d every other writer of a type tag encodes the payload like store_db_value (SIBLING)"]
+           "R12d every other writer of a type tag encodes the payload like store_db_value (SIBLING)",
+           "R09e DbF64 equality / order / hashes agree (shared with C09)"]
 UNDECIDED = ["the round trip itself on concrete values (needs execution)",
              "String read inline goes through from_utf8_lossy: lossless only because a Rust String is valid UTF-8 "
              "and the inline bytes are the untruncated string (not decided structurally)",
@@ -297,7 +298,8 @@ def sibling_writers_rule(ctx, wt_main, rule="R12d"):
     for name, row in (wt_main or {}).items():
         if len(row["tags"]) == 1 and row["tags"][0] is not None:
             main_by_tag[row["tags"][0]] = (name, row["payload"])
-    RAW = ("insert_bytes", "replace_with_bytes", "insert_bytes_at")
+    RAW = ("insert_bytes", "replace_with_bytes")       # whole-record raw writers: record size == payload size
+    RAW_PARTIAL = ("insert_bytes_at",)                    # writes into a record without setting its size
     SER = ("insert", "replace", "insert_at")
     n = 0
     for b in sorted(fa.bodies.values(), key=lambda x: x.path):
@@ -340,6 +342,8 @@ def sibling_writers_rule(ctx, wt_main, rule="R12d"):
                 c = cfg.callee(t) or ""
                 if c.startswith(ST) and last(c) in RAW:
                     enc.add("bytes")
+                elif c.startswith(ST) and last(c) in RAW_PARTIAL:
+                    enc.add("bytes written at an offset (the record keeps its old size; raw values are read back as the whole record)")
                 elif c.startswith(ST) and last(c) in SER:
                     enc.add(generic_arg(cfg.callee_full(t)) or "serialized")
             if not enc:
@@ -640,4 +644,7 @@ def run(ctx):
     # returns bytes of the wrong offset unless the cursor discipline holds (R23b)
     from rules import C23
     C23.cursor_rule(ctx)
+    # float keys / values: DbF64's equality must agree with its order and hashes (R09e, shared with C09)
+    from rules import C09
+    C09.float_key_rule(ctx)
     return 0
